@@ -156,11 +156,11 @@ fn shard(seed: u64, shard: u64, shards: u64, tier: Tier) -> Tally {
     let mut sr = Rng::keyed(seed, "C04", "spell", shard, 0);
     let servers = server_instants();
     // --- grid: every whole-second offset in [-1200, 1200] × sub-second parts on both sides (sharded by offset)
-    let step = tier.n(7, 1) as i64;
+    let step = tier.n(3, 1) as i64;
     for (si, (sname, s0)) in servers.iter().enumerate() {
         // the exhaustive second-grid is run at three server instants in thorough, one in quick; bounds at all
         let full = match tier {
-            Tier::Quick => si == 0,
+            Tier::Quick => si < 2,
             Tier::Thorough => si < 3,
         };
         for d in -1200i64..=1200 {
